@@ -79,7 +79,7 @@ def case_batch(batch, wctx):
 
 def run(ctx):
     quick = ctx.tier == "quick"
-    n = G.QUICK_N.get(ctx.prop, 600) if quick else 20000
+    n = G.QUICK_N.get(ctx.prop, 600) if quick else 6000
     per = 25 if quick else 400
     ctx.rule = ("random shell.define definitions (1-6 fields of 7 kinds, 5 argstr styles, explicit +/- positions, "
                 "separators, defaults) x value assignments of simple words incl. unset/None/0/0.0/False; each run "
